@@ -387,7 +387,7 @@ CLAIMED["C19"] = {
             "arithmetic (a hypothesis, proved for an exact instance and checked on every replayed step). Outside the "
             "guards two _refuted examples show a finalised entry being rewritten; the int64 one was reproduced on real "
             "code at ~100 BTC / delta 65535 (domain boundary, not listed as a finding). Optimality and probability not "
-            "claimed. Blinded tails outside the model; payload sizes are an oracle measured on the real sphinx path. "
+            "claimed. "
             "Trusted: Coq kernel (primitive floats only in the replay file, in no theorem), harness, python predicate.",
     "technique": "Coq proof (induction over paths, fold invariants, invariant over a nondeterministic transition system "
                  "of the Dijkstra loop, link to the C09 model) + differential harness on real findPath/newRoute/getEdge "
@@ -722,5 +722,42 @@ _ADD4 = {
                           "collision-forcing multi-request generator")],
 }
 for _pid, _items in _ADD4.items():
+    for _field, _txt in _items:
+        CLAIMED[_pid][_field] += " " + _txt
+
+_ADD5 = {
+    "C04": [("text", "Also the breach arbiter's multi-step retribution flow (stage brarflow): after every rebuild (cheater "
+                     "advancing HTLCs to the second level, our partial justice confirming, slice compaction, restart from "
+                     "the retribution store) every input of every justice variant is a valid spend of the output actually on "
+                     "chain and the variants cover exactly the breached outputs still unspent: "
+                     "C04_rebuild_covers_unspent_at_current_level, C04_rebuild_witness_follows_current_level, "
+                     "C04_rebuild_signs_existing_outputs, C04_justice_variants_partition (any interleaving of chain events, "
+                     "consumed spend batches and restarts). Tie: seeded event walks replaying exactRetribution's steps on "
+                     "real channels of 7 types + the live BreachArbitrator goroutines; every input executed by btcd's script "
+                     "engine (standard and consensus flags) against a simulated chain; ~1,600 builds per run compared with "
+                     "the Coq model."),
+            ("note", "brarflow: scripts, keys, retribution-store encoding and goroutine plumbing are judged by the engine "
+                     "and the predicates, not modelled; spend batches are assumed to have distinct slice indexes. A btcd "
+                     "engine error with an empty text (ErrTaprootSigInvalid) used to read as 'accepted' in three harnesses; "
+                     "they now use the error code."),
+            ("technique", "+ proved interleaving invariant over a ghost chain for the breach arbiter flow; btcd engine as "
+                          "oracle against a simulated chain")],
+    "C19": [("text", "Route hints and blinded payment paths are generated and modelled (Route/Blinded*.v mirrors "
+                     "NewBlindedPaymentPathSet / toRouteHints / newRoute's dummy-hop removal and back-fill as coded): "
+                     "C19_blinded_findpath_route_ok, C19_blinded_min_enforced, C19_blinded_intro_paid, "
+                     "C19_newroute_strip_dummy, C19_unblind_backfill; four clauses are REFUTED on blinded tails by witness "
+                     "theorems = known findings C19-F1..F4 (htlc_maximum of a blinded path not enforced; introduction node's "
+                     "inbound discount netted against the aggregated blinded fee; introduction-node-only path carries no "
+                     "limits; final blinded hop payload under-estimated), each reproduced on the real findPath/newRoute in "
+                     "every run."),
+            ("note", "Encrypted data, blinding points and features are opaque; payload sizes of cleartext and blinded "
+                     "intermediate hops remain oracle values, the blinded final hop has a size model tied on every row; "
+                     "paymentSession.RequestRoute's restrictions (no path set) are not driven (candidate observation in "
+                     "notes/C19.md); a nil-Features panic in NewBlindedPaymentPathSet is recorded as an observation "
+                     "(outside C19's statement)."),
+            ("technique", "+ blinded/hint streams checked by a payment-level predicate independent of lnd's derived "
+                          "edges + Coq check_bcase + Dijkstra replay with the NUMS target")],
+}
+for _pid, _items in _ADD5.items():
     for _field, _txt in _items:
         CLAIMED[_pid][_field] += " " + _txt
